@@ -1,12 +1,178 @@
-(* C03: lexical scoping.  Statements only. *)
-From Coq Require Import ZArith List.
-From ZV Require Import Model.Num Model.RefSem.
+(* C03: lexical scoping: closures capture where they were made, never the caller.
+   Statements only; proofs in Proofs/RefSemProofs.v.  All theorems are about the reference
+   evaluator Model/RefSem.v (frames in a store, static chains), for all programs and stores;
+   that the scope stack / captured stacks / parent chain of the real interpreter compute the
+   same observables is what the correspondence run of checks/c03.py establishes (docs/C03.md). *)
+From Coq Require Import ZArith Bool List.
+From ZV Require Import Model.Num Model.RefSem Proofs.RefSemProofs.
 Import ListNotations.
 Open Scope Z_scope.
 
-(* non-vacuity: (def x 10) (defn f [] x) (defn g [x] (f)) (g 1)  evaluates to 10, not 1 *)
+(* ---- 1. closures ignore the caller's frames ----
+   F is any set of frames (the caller's locals) such that the two stores differ only in the
+   contents of the frames of F and nothing outside F mentions a frame of F (rel F s1 s2: same
+   number of frames, equal outside F, equal arrays / trace / counters, every value stored
+   outside F or in an array has a static chain disjoint from F).  Calling a closure whose own
+   static chain and arguments do not mention F then gives the same outcome (value / signal /
+   out-of-fuel), related final stores (hence the same trace and the same effects on every frame
+   outside F), and leaves every frame of F exactly as it was, in both runs. *)
+Theorem closure_ignores_caller_env :
+  forall (F : nat -> Prop), ~ F 0%nat ->
+  forall n nm ps rest body cenv args s1 s2 r s1',
+    rel F s1 s2 -> disj F cenv -> Forall (val_ok F) args ->
+    apply n (VClos nm ps rest body cenv) args s1 = (r, s1') ->
+    exists s2', apply n (VClos nm ps rest body cenv) args s2 = (r, s2') /\
+                rel F s1' s2' /\ unt F s1 s1' /\ unt F s2 s2'.
+Proof. exact RefSemProofs.closure_ignores_caller_frames. Qed.
+Print Assumptions closure_ignores_caller_env.
+
+(* the same for any expression evaluated under a static chain disjoint from F *)
+Theorem eval_ignores_hidden_frames :
+  forall (F : nat -> Prop), ~ F 0%nat ->
+  forall n env e s1 s2 r s1',
+    rel F s1 s2 -> disj F env -> eval n env e s1 = (r, s1') ->
+    exists s2', eval n env e s2 = (r, s2') /\ rel F s1' s2' /\ unt F s1 s1' /\ unt F s2 s2'.
+Proof. exact RefSemProofs.eval_ignores_hidden_frames. Qed.
+Print Assumptions eval_ignores_hidden_frames.
+
+(* a closure captures exactly the static chain of the place where it is created *)
+Theorem fn_captures_env : forall n env ps rest body s,
+  eval (S n) env (EFn ps rest body) s = (Done (VClos None ps rest body env), s).
+Proof. exact RefSemProofs.fn_captures_env. Qed.
+
+(* ---- 2. every activation / let / letseq / newScope / for gets a fresh frame ---- *)
+
+Theorem fresh_frame : forall s f s1, push_frame s = (f, s1) ->
+  f = length (frames s) /\ nth_error (frames s) f = None /\
+  frames s1 = frames s ++ [[]] /\ nth_error (frames s1) f = Some [] /\
+  (forall g, (g < length (frames s))%nat -> nth_error (frames s1) g = nth_error (frames s) g) /\
+  arrays s1 = arrays s /\ trace s1 = trace s.
+Proof. exact RefSemProofs.push_frame_fresh. Qed.
+Print Assumptions fresh_frame.
+
+Theorem fresh_activation : forall n nm ps rest body cenv args s binds,
+  zip_params ps rest args [] = Some binds ->
+  apply (S n) (VClos nm ps rest body cenv) args s =
+  (_ <- bind_all (length (frames s)) binds ;;
+   no_loop_sig ELoop (ev_begin (eval n) (length (frames s) :: cenv) body)) (snd (push_frame s)).
+Proof. exact RefSemProofs.apply_closure_fresh. Qed.
+Print Assumptions fresh_activation.
+
+Theorem fresh_let : forall n env bs body s,
+  eval (S n) env (ELet false bs body) s =
+  (vs <- ev_list (eval n) (length (frames s) :: env) (map snd bs) ;;
+   _ <- bind_all (length (frames s)) (rev (combine (map fst bs) vs)) ;;
+   ev_begin (eval n) (length (frames s) :: env) body) (snd (push_frame s)).
+Proof. exact RefSemProofs.let_fresh. Qed.
+
+Theorem fresh_letseq : forall n env bs body s,
+  eval (S n) env (ELet true bs body) s =
+  (_ <- ev_letseq (eval n) (length (frames s)) (length (frames s) :: env) bs ;;
+   ev_begin (eval n) (length (frames s) :: env) body) (snd (push_frame s)).
+Proof. exact RefSemProofs.letseq_fresh. Qed.
+
+Theorem fresh_scope : forall n env es s,
+  eval (S n) env (EScope es) s =
+  ev_begin (eval n) (length (frames s) :: env) es (snd (push_frame s)).
+Proof. exact RefSemProofs.scope_fresh. Qed.
+
+Theorem fresh_for : forall n env lbl i t st body s,
+  eval (S n) env (EFor lbl i t st body) s =
+  (_ <- no_loop_sig EUnspec (eval n (length (frames s) :: env) i) ;;
+   for_loop (eval n) n (length (frames s) :: env) lbl t st body) (snd (push_frame s)).
+Proof. exact RefSemProofs.for_fresh. Qed.
+
+(* ---- 3. closures of one activation share its variables ---- *)
+
+(* an update made through one static chain is seen through every chain that finds the name
+   in the same frame (two closures created in one activation hold the same frame id, by
+   fn_captures_env) *)
+Theorem siblings_share : forall s env1 env2 x f v1 v2 v,
+  lookup_chain (frames s) env1 x = Some (f, v1) ->
+  lookup_chain (frames s) env2 x = Some (f, v2) ->
+  lookup_chain (frames (upd_frame f x v s)) env2 x = Some (f, v).
+Proof. exact RefSemProofs.update_seen_by_sibling. Qed.
+Print Assumptions siblings_share.
+
+(* ---- 4. captured variables outlive the activation: frames and bindings are never removed ---- *)
+
+Theorem captured_frame_outlives : forall n env e s r s',
+  eval n env e s = (r, s') ->
+  (forall f fr x v, nth_error (frames s) f = Some fr -> assoc x fr = Some v ->
+     exists fr' v', nth_error (frames s') f = Some fr' /\ assoc x fr' = Some v') /\
+  (forall f, (f < length (frames s))%nat -> (f < length (frames s'))%nat).
+Proof.
+  intros n env e s r s' H. destruct (RefSemProofs.eval_extends_store _ _ _ _ _ _ H) as (_ & A & B & _).
+  exact (conj A B).
+Qed.
+Print Assumptions captured_frame_outlives.
+
+Theorem captured_frame_outlives_apply : forall n f args s r s',
+  apply n f args s = (r, s') ->
+  (forall g fr x v, nth_error (frames s) g = Some fr -> assoc x fr = Some v ->
+     exists fr' v', nth_error (frames s') g = Some fr' /\ assoc x fr' = Some v') /\
+  (forall g, (g < length (frames s))%nat -> (g < length (frames s'))%nat).
+Proof.
+  intros n f args s r s' H. destruct (RefSemProofs.apply_extends_store _ _ _ _ _ _ H) as (_ & A & B & _).
+  exact (conj A B).
+Qed.
+Print Assumptions captured_frame_outlives_apply.
+
+(* ---- 5. shadowing follows the static chain: the innermost binding wins ---- *)
+
+Theorem shadowing_innermost : forall fs env x f v,
+  lookup_chain fs env x = Some (f, v) ->
+  exists env1 env2 fr,
+    env = env1 ++ f :: env2 /\ nth_error fs f = Some fr /\ assoc x fr = Some v /\
+    Forall (fun g => forall fg, nth_error fs g = Some fg -> assoc x fg = None) env1.
+Proof. exact RefSemProofs.lookup_chain_innermost. Qed.
+Print Assumptions shadowing_innermost.
+
+Theorem lookup_head_binds : forall fs f env x fr v,
+  nth_error fs f = Some fr -> assoc x fr = Some v -> lookup_chain fs (f :: env) x = Some (f, v).
+Proof. exact RefSemProofs.lookup_chain_head. Qed.
+
+Theorem lookup_skips_unbound : forall fs f env x fr,
+  nth_error fs f = Some fr -> assoc x fr = None ->
+  lookup_chain fs (f :: env) x = lookup_chain fs env x.
+Proof. exact RefSemProofs.lookup_chain_skip. Qed.
+
+(* ---- 6. non-vacuity ---- *)
+
+(* (def x 10) (defn f [] x) (defn g [x] (f)) (g 1) = 10, not 1 *)
 Example ex_not_dynamic :
   o_res (eval_program 50 [EDef 100 (EInt 10); EDefn 101 [] None [EVar 100];
                           EDefn 102 [100] None [ECall (EVar 101) []]; ECall (EVar 102) [EInt 1]])
   = Done (SvInt 10).
 Proof. vm_compute. reflexivity. Qed.
+
+(* (defn mk [] (def x 0) [(fn [] (set x (+ x 1))) (fn [] x)]) (def a (mk)) (def b (mk))
+   ((aget a 0)) ((aget a 0)) (list ((aget a 1)) ((aget b 1)))  =  (2 0) *)
+Example ex_counters :
+  o_res (eval_program 80
+    [EDefn 110 [] None [EDef 100 (EInt 0);
+        EArr [EFn [] None [ESet 100 (ECall (EVar 1) [EVar 100; EInt 1])]; EFn [] None [EVar 100]]];
+     EDef 111 (ECall (EVar 110) []); EDef 112 (ECall (EVar 110) []);
+     ECall (ECall (EVar 16) [EVar 111; EInt 0]) [];
+     ECall (ECall (EVar 16) [EVar 111; EInt 0]) [];
+     ECall (EVar 14) [ECall (ECall (EVar 16) [EVar 111; EInt 1]) [];
+                      ECall (ECall (EVar 16) [EVar 112; EInt 1]) []]])
+  = Done (SvPair (SvInt 2) (SvPair (SvInt 0) SvNil)).
+Proof. vm_compute. reflexivity. Qed.
+
+(* the hypotheses of closure_ignores_caller_env are satisfiable with a non-empty F:
+   frame 1 hidden, two stores that differ in it *)
+Example ex_rel_nonempty :
+  rel (fun f => f = 1%nat)
+      (mkStore [global_frame; [(100, VInt 1)]] [] [] 0 0)
+      (mkStore [global_frame; [(100, VInt 2)]] [] [] 0 0).
+Proof.
+  constructor; simpl; auto.
+  - intros f ->. auto.
+  - intros f Hf. destruct f as [|[|f]]; try reflexivity. congruence.
+  - intros f fr Hf Hn. destruct f as [|[|f]]; simpl in Hn.
+    + inversion Hn; subst. unfold global_frame. repeat constructor.
+    + congruence.
+    + destruct f; discriminate.
+  - intros a o Ha. destruct a; discriminate.
+Qed.
